@@ -462,6 +462,8 @@ class TextModel:
         r = self.recs[i]
         old = rec_id(r, v)
         ids = self.ids()
+        if (new is None or new == "*") and r[0] in "SP":
+            return "illegal:name-required"      # the identifier of a segment or path is not optional
         if new is None:
             return self.dropid(i)
         if new == "*" and r[0] in "EGOU":
@@ -1327,6 +1329,9 @@ def gen_mutation(rng, m, prof, op):
         a = rng.choice(named)
         rt = m.recs[ids[a]][0]
         if rt in "EGOU" and rng.chance(prof["rename_star"]):
+            return ["rename", a, "*"], "rename-star:" + rt
+        if rt in "SP" and rng.chance(prof["rename_star"] * 0.5):
+            # not optional: must be refused at every level (the line would be stored as if it had no name)
             return ["rename", a, "*"], "rename-star:" + rt
         men = m.mentioned()
         free = [x for x in FRESH if x not in ids and x not in men]
